@@ -52,15 +52,6 @@ def r01_3_wiring(ctx, only=None):
     ctx.require_min("R01.3", 14 if not only else 1)
 
 
-def run(ctx):
-    r01_3_wiring(ctx)
-    return (
-        "Def-use edge facts of every control construct's __teal__ compared with a reference lowering; operand order/arity at emission "
-        "sites; pattern rules on NormalizeBlocks/sortBlocks/flattenBlocks/replaceOutgoing. Behaviour over inputs is not decided."
-    )
-
-
-# ------------------------------------------------------------------------------------------
 from rules.emitcommon import get_sites  # noqa: E402
 
 # ops whose FromOp operand count legitimately differs from the op's pops, one line of reason each
@@ -140,13 +131,317 @@ def r01_1_operands(ctx):
     ctx.require_min("R01.1", 150)
 
 
-_run_wiring_only = run
 
 
-def run(ctx):  # noqa: F811
+# ------------------------------------------------------------------------------------------
+# R01.4 flattenBlocks: finite abstract evaluation of the emitted branch sequence
+from sa import q  # noqa: E402
+from sa.astutil import walk_local, enclosing_stmt, dominating  # noqa: E402
+
+
+def _flatten_emissions(f):
+    """[(op, role, guards, node)] for every TealOp(_, Op.b|bz|bnz, indexToLabel(V)) in flattenBlocks;
+    role = successor attribute of `block` that V indexes ('nextBlock' | 'trueBlock' | 'falseBlock')"""
+    out = []
+    for c in q.calls_named(f.node, "TealOp", into_nested=False):
+        if len(c.args) < 3:
+            continue
+        op = u(c.args[1])
+        if op not in ("Op.b", "Op.bz", "Op.bnz"):
+            continue
+        lab = c.args[2]
+        q.need(isinstance(lab, ast.Call) and len(lab.args) == 1, f"{f.fq}:{c.lineno}: branch target is not <labelfn>(<index>)")
+        role = _role_of(f, lab.args[0])
+        out.append((op[3:], role, q.guard_objs(c), c))
+    return out
+
+
+def _role_of(f, e) -> str:
+    r = q.resolve_local(f.node, e)
+    # blockIndexByReference(block.<attr>)
+    if isinstance(r, ast.Call) and len(r.args) == 1 and isinstance(r.args[0], ast.Attribute) and u(r.args[0].value) == "block":
+        return r.args[0].attr
+    raise AnalysisError(f"{f.fq}: cannot resolve branch target index `{u(e)}` to a successor of `block` (got `{u(r)}`)")
+
+
+def _eval_guard(f, g, case) -> bool:
+    """truth of guard under the abstract case: {'kind': 'simple'|'cond', 'fall': {role: bool}}"""
+    t = g.expr
+    pol = g.polarity
+
+    def ev(t):
+        if isinstance(t, ast.UnaryOp) and isinstance(t.op, ast.Not):
+            return not ev(t.operand)
+        if isinstance(t, ast.BoolOp):
+            vs = [ev(v) for v in t.values]
+            return all(vs) if isinstance(t.op, ast.And) else any(vs)
+        txt = u(t)
+        if txt == "block.isTerminal()":
+            return False  # the abstract cases are non-terminal blocks
+        m = re.fullmatch(r"type\(block\) is (\w+)", txt)
+        if m:
+            return (m.group(1) == "TealSimpleBlock") == (case["kind"] == "simple")
+        m = re.fullmatch(r"isinstance\(block, (\w+)\)", txt)
+        if m:
+            return (m.group(1) == "TealSimpleBlock") == (case["kind"] == "simple")
+        if isinstance(t, ast.Compare) and len(t.ops) == 1 and isinstance(t.ops[0], (ast.Eq, ast.NotEq)):
+            a, b = t.left, t.comparators[0]
+            if u(b) not in ("i + 1", "1 + i"):
+                a, b = b, a
+            if u(b) in ("i + 1", "1 + i"):
+                role = _role_of(f, a)
+                v = case["fall"][role]
+                return v if isinstance(t.ops[0], ast.Eq) else (not v)
+        raise AnalysisError(f"{f.fq}: guard `{txt}` of a branch emission is outside the recognised vocabulary")
+
+    return ev(t) == pol
+
+
+def r01_4_flatten(ctx):
+    ctx.rule("R01.4", "flattenBlocks: for every successor configuration the emitted b/bz/bnz sequence sends a true condition to the true successor, a false one to the false successor, and a simple block to its successor (finite abstract evaluation of the emission code)")
+    f = ctx.model.find_func("flattenBlocks", "pyteal.compiler.flatten")
+    ctx.analysed(f.fq)
+    ems = _flatten_emissions(f)
+    q.need(len(ems) >= 3, f"{f.fq}: fewer than 3 branch emission sites found")
+    ems.sort(key=lambda e: (e[3].lineno, e[3].col_offset))
+
+    def active(case):
+        # `assert x is not None` facts hold for the well-formed blocks the cases range over
+        return [(op, role) for op, role, gs, _n in ems if all(_eval_guard(f, g, case) for g in gs if g.kind != "assert")]
+
+    # simple blocks
+    for fall in (True, False):
+        case = {"kind": "simple", "fall": {"nextBlock": fall}}
+        seq = active(case)
+        reached = "N"
+        for op, role in seq:
+            if op == "b":
+                reached = role
+                break
+            reached = "?"  # a conditional branch on a simple block pops a value that is not there
+            break
+        ok = reached == "nextBlock" or (reached == "N" and fall)
+        ctx.check(ok, "R01.4", f"flattenBlocks[simple,next{'==' if fall else '!='}i+1]", f"emitted {seq}: control reaches {reached} instead of the block's successor", f.where, fact={"emitted": seq})
+    for tf in (True, False):
+        for ff in (True, False):
+            case = {"kind": "cond", "fall": {"trueBlock": tf, "falseBlock": ff}}
+            seq = active(case)
+            res = {}
+            for c in (True, False):
+                reached = "N"
+                for op, role in seq:
+                    if op == "bnz" and c:
+                        reached = role
+                        break
+                    if op == "bz" and not c:
+                        reached = role
+                        break
+                    if op == "b":
+                        reached = role
+                        break
+                res[c] = reached
+            # exactly one conditional branch pops the condition
+            pops = sum(1 for op, _r in seq if op in ("bz", "bnz"))
+            ok_t = res[True] == "trueBlock" or (res[True] == "N" and tf)
+            ok_f = res[False] == "falseBlock" or (res[False] == "N" and ff)
+            ctx.check(ok_t and ok_f and pops == 1, "R01.4", f"flattenBlocks[cond,true{'==' if tf else '!='}i+1,false{'==' if ff else '!='}i+1]",
+                      f"emitted {seq}: condition true reaches {res[True]}, false reaches {res[False]}, conditional branches emitted: {pops} (must be 1)", f.where, fact={"emitted": seq})
+    # every emission is accompanied by a reference count on the same index, and labels are emitted iff referenced
+    for op, role, gs, node in ems:
+        st = enclosing_stmt(node)
+        body = st.parent.body if hasattr(st.parent, "body") and any(s is st for s in getattr(st.parent, "body", [])) else getattr(st.parent, "orelse", [])
+        idx_var = u(node.args[2].args[0])
+        counted = any(isinstance(s, ast.AugAssign) and isinstance(s.op, ast.Add) and u(s.target).endswith(f"[{idx_var}]") and s.lineno < st.lineno for s in body)
+        ctx.check(counted, "R01.4", f"flattenBlocks:label-count:{op}:{role}", f"branch to index `{idx_var}` is emitted without counting a reference to it (its label would not be emitted)", f"{f.module.rel}:{node.lineno}", fact={"index": idx_var})
+    labs = [c for c in q.calls_named(f.node, "TealLabel", into_nested=False)]
+    lab = q.one(labs, f"{f.fq}: TealLabel construction")
+    gs = q.guards(lab)
+    ctx.check(any(re.fullmatch(r"\w+\[i\] != 0", t) and pol or re.fullmatch(r"\w+\[i\] == 0", t) and not pol or re.fullmatch(r"\w+\[i\] > 0", t) and pol for t, pol in gs), "R01.4", "flattenBlocks:label-iff-referenced", f"label emission is not guarded by the reference count of the block (guards: {gs})", f"{f.module.rel}:{lab.lineno}", fact={"guards": gs})
+    # the label precedes the block's code
+    st = enclosing_stmt(lab)
+    loop = [a for a in q.ancestors(lab) if isinstance(a, ast.For)]
+    q.need(loop, f"{f.fq}: label emission not in a loop")
+    body = loop[0].body
+    i_lab = q.stmt_index(body, lab)
+    i_code = [i for i, s in enumerate(body) if isinstance(s, ast.AugAssign) and u(s.value) == "code"]
+    ctx.check(bool(i_code) and i_lab < i_code[0], "R01.4", "flattenBlocks:label-before-code", "the label of a block must be appended before the block's ops", f"{f.module.rel}:{lab.lineno}", fact={"label_stmt": i_lab, "code_stmt": i_code})
+    # labels are memoised per index
+    il = [x for x in ctx.model.modules[f.module.name].all_funcs if x.qualname.endswith("flattenBlocks.<locals>.indexToLabel")]
+    il = q.one(il, "flattenBlocks.indexToLabel")
+    rets = q.returns_of(il.node)
+    ctx.check(len(rets) == 1 and isinstance(rets[0].value, ast.Subscript) and u(rets[0].value.slice) == il.params()[0], "R01.4", "flattenBlocks:one-label-per-index", "indexToLabel must return the memoised LabelReference of the index (one object per index, so that prefixing renames definition and uses together)", il.where, fact={"returns": [u(r.value) for r in rets]})
+    ctx.require_min("R01.4", 10)
+
+
+def r01_5_sort(ctx):
+    ctx.rule("R01.5", "sortBlocks: each block is appended once (visited test dominates the append) and the routine's end block is moved to the last position")
+    f = ctx.model.find_func("sortBlocks", "pyteal.compiler.sort")
+    ctx.analysed(f.fq)
+    apps = [c for c in q.calls_named(f.node, "append") if u(c.func.value) == "order"]
+    q.need(len(apps) == 2, f"{f.fq}: expected two appends to `order`, found {len(apps)}")
+    first, last = sorted(apps, key=lambda c: c.lineno)
+    gs = q.guards(first)
+    ctx.check(any(("in visited" in t and "not in" not in t and not pol) or ("not in visited" in t and pol) for t, pol in gs), "R01.5", "sortBlocks:append-once", f"order.append({u(first.args[0])}) is not dominated by a `visited` test (guards: {gs})", f"{f.module.rel}:{first.lineno}", fact={"guards": gs})
+    adds = [c for c in q.calls_named(f.node, "add") if u(c.func.value) == "visited"]
+    ctx.check(len(adds) == 1 and u(adds[0].args[0]) in [t.split(" in visited")[0].split(" not in visited")[0] for t, _p in gs], "R01.5", "sortBlocks:visited-key", "the key added to `visited` must be the key tested before the append", f.where, fact={"added": [u(a.args[0]) for a in adds]})
+    # successors are pushed for every popped block that is appended
+    ext = [s for s in walk_local(f.node) if isinstance(s, ast.AugAssign) and u(s.target) == "S" and "getOutgoing()" in u(s.value)]
+    ctx.check(len(ext) == 1, "R01.5", "sortBlocks:all-successors", "every successor (getOutgoing()) of an ordered block must be pushed on the work list", f.where, fact={"n": len(ext)})
+    # end block moved last
+    pops = [c for c in q.calls_named(f.node, "pop") if u(c.func.value) == "order"]
+    ctx.check(len(pops) == 1 and u(last.args[0]) == f.params()[1] and pops[0].lineno < last.lineno and not q.nguards(last, ("branch",)), "R01.5", "sortBlocks:end-last", "the end block must be removed from its position and appended unconditionally as the last block", f.where, fact={"pop": [u(p) for p in pops], "append": u(last)})
+    if pops:
+        idx = q.rtext(f.node, pops[0].args[0]) if pops[0].args else ""
+        # the popped index is the one found by the identity scan `block is end`
+        scans = [n for n in walk_local(f.node) if isinstance(n, ast.Compare) and isinstance(n.ops[0], ast.Is) and u(n.comparators[0]) == f.params()[1]]
+        ctx.check(len(scans) >= 1, "R01.5", "sortBlocks:end-by-identity", "the end block must be located by identity (`is`), not structural equality", f.where, fact={"scan": [u(s) for s in scans]})
+    rets = q.returns_of(f.node)
+    ctx.check(len(rets) == 1 and u(rets[0].value) == "order", "R01.5", "sortBlocks:returns-order", "sortBlocks must return the list it built", f.where, fact={})
+    ctx.require_min("R01.5", 5)
+
+
+def _root_rewrites(fnode):
+    """for every loop body that rewrites edges with X.replaceOutgoing(old, new): the statements
+    `if <A> is start: start = <B>` in the same body, with everything resolved through single defs"""
+    out = []
+    for loop in [n for n in walk_local(fnode) if isinstance(n, ast.For)]:
+        reps = [c for c in q.calls_named(loop, "replaceOutgoing", into_nested=False) if len(c.args) == 2]
+        if not reps:
+            continue
+        # innermost loop that holds the root update
+        for st in walk_local(loop):
+            if isinstance(st, ast.If) and isinstance(st.test, ast.Compare) and len(st.test.ops) == 1 and isinstance(st.test.ops[0], ast.Is):
+                l, r = u(st.test.left), u(st.test.comparators[0])
+                if "start" not in (l, r):
+                    continue
+                removed = r if l == "start" else l
+                for s2 in st.body:
+                    if isinstance(s2, ast.Assign) and len(s2.targets) == 1 and u(s2.targets[0]) == "start":
+                        out.append((loop, reps, removed, s2.value, st))
+    return out
+
+
+def r01_6_root_rebinding(ctx):
+    ctx.rule("R01.6", "graph rewrites keep the root pointer consistent with the edge rewrite: where a pass replaces edges to block A by edges to block B (replaceOutgoing(A, B)) and A is the routine's start, start must become B")
+    n = 0
+    for qual, mod in (("TealBlock.NormalizeBlocks", "pyteal.ir.tealblock"), ("compileSubroutine", "pyteal.compiler.compiler")):
+        f = ctx.model.find_func(qual, mod)
+        ctx.analysed(f.fq)
+        rws = _root_rewrites(f.node)
+        # every loop with replaceOutgoing must have a root update
+        loops_with_rep = []
+        for loop in [x for x in walk_local(f.node) if isinstance(x, ast.For)]:
+            if any(True for c in q.calls_named(loop, "replaceOutgoing", into_nested=False)):
+                # only outermost such loops
+                if not any(isinstance(a, ast.For) and any(True for c in q.calls_named(a, "replaceOutgoing", into_nested=False)) for a in q.ancestors(loop) if a is not f.node):
+                    loops_with_rep.append(loop)
+        for k, loop in enumerate(loops_with_rep):
+            mine = [r for r in rws if r[0] is loop or any(a is loop for a in q.ancestors(r[4]))]
+            construct = f"{qual}:rewrite#{k}"
+            if not mine:
+                ctx.bad("R01.6", construct, "edges are rewritten (replaceOutgoing) but the routine's start pointer is never updated when the replaced block is the start", f"{f.module.rel}:{loop.lineno}")
+                continue
+            for _loop, reps, removed, newval, st in mine:
+                n += 1
+                pairs = {(q.rtext(f.node, c.args[0]), q.rtext(f.node, c.args[1])) for c in q.calls_named(loop, "replaceOutgoing", into_nested=False) if len(c.args) == 2}
+                want = {b for a, b in pairs if a == q.rtext(f.node, ast.parse(removed, mode="eval").body)}
+                got = q.rtext(f.node, newval)
+                ok = got in want and got != q.rtext(f.node, ast.parse(removed, mode="eval").body)
+                ctx.check(ok, "R01.6", construct, f"when `{removed}` is the start block it is replaced by {sorted(want)} in every edge, but start is rebound to `{got}` (a block that no longer is in the graph / a no-op)", f"{f.module.rel}:{st.lineno}", fact={"removed": removed, "edges_now_point_to": sorted(want), "start_becomes": got})
+    ctx.require_min("R01.6", 3)
+
+
+def r01_7_replace_total(ctx):
+    ctx.rule("R01.7", "replaceOutgoing updates every successor slot that equals the old block (independent tests, one per slot returned by getOutgoing)")
+    for cname, mod in (("TealConditionalBlock", "pyteal.ir.tealconditionalblock"), ("TealSimpleBlock", "pyteal.ir.tealsimpleblock")):
+        c = ctx.model.find_class(cname, mod)
+        ro = q.need(c.methods.get("replaceOutgoing"), f"{c.fq}.replaceOutgoing vanished")
+        go = q.need(c.methods.get("getOutgoing"), f"{c.fq}.getOutgoing vanished")
+        ctx.analysed(ro.fq, go.fq)
+        slots = sorted({n.attr for n in ast.walk(go.node) if isinstance(n, ast.Attribute) and u(n.value) == "self" and n.attr.endswith("Block")})
+        q.need(slots, f"{c.fq}.getOutgoing: no successor attributes found")
+        old, new = ro.params()[1], ro.params()[2]
+        for slot in slots:
+            hits = [n for n in walk_local(ro.node) if isinstance(n, ast.Assign) and u(n.targets[0]) == f"self.{slot}" and u(n.value) == new]
+            construct = f"{cname}.replaceOutgoing:{slot}"
+            if not hits:
+                ctx.bad("R01.7", construct, f"successor slot {slot} is never replaced", ro.where)
+                continue
+            gs = q.guards(hits[0])
+            want = (f"self.{slot} is {old}", True)
+            others = [g for g in gs if g != want]
+            ctx.check(want in gs and not others, "R01.7", construct, f"`self.{slot} = {new}` must happen whenever self.{slot} is {old}; it is additionally conditioned on {others} (a block whose successors coincide keeps a stale edge)", f"{ro.module.rel}:{hits[0].lineno}", fact={"guards": gs})
+    ctx.require_min("R01.7", 3)
+
+
+def r01_8_api_ops(ctx):
+    from spec import api_ops
+
+    ctx.rule("R01.8", "every public operator factory emits the TEAL op its name denotes (frozen API -> op table) and Expr's operator overloads forward (self, other) to the factory their symbol denotes")
+    S = get_sites(ctx.model)
+    tab = {}
+    for s in S.factory_sites:
+        tab.setdefault(s.construct, set()).update((S.teal_name(o) or o) for o in s.ops)
+    for construct, want in sorted(api_ops.API_OPS.items()):
+        got = tab.get(construct)
+        if got is None:
+            ctx.uncheck(f"{construct}: factory no longer found (renamed or removed)")
+            continue
+        ctx.check(set(got) == set(want), "R01.8", construct, f"{construct.split('->')[0]} emits {sorted(map(str, got))} but its name denotes {sorted(want)}", "", fact={"emits": sorted(map(str, got))})
+    ex = ctx.model.find_class("Expr", "pyteal.ast.expr")
+    for dunder, (factory, order) in sorted(api_ops.OVERLOADS.items()):
+        m = ex.methods.get(dunder)
+        if m is None:
+            ctx.bad("R01.8", f"Expr.{dunder}", f"operator overload {dunder} vanished", ex.where)
+            continue
+        rets = q.returns_of(m.node)
+        ok = len(rets) == 1 and isinstance(rets[0].value, ast.Call) and u(rets[0].value.func) == factory and [u(a) for a in rets[0].value.args] == [m.params()[i] for i in order]
+        ctx.check(ok, "R01.8", f"Expr.{dunder}", f"Expr.{dunder} must return {factory}({', '.join(m.params()[i] for i in order)}); it returns {[u(r.value) for r in rets]}", m.where, fact={"returns": [u(r.value) for r in rets]})
+        # the imported factory is the one from the expected module
+    ctx.require_min("R01.8", 120)
+
+
+def r01_10_routine_epilogue(ctx):
+    ctx.rule("R01.10", "compileSubroutine appends the implicit Return exactly when the body has none (Return() for none-typed bodies, Return(body) otherwise) and isTerminal recognises return/retsub/err")
+    f = ctx.model.find_func("compileSubroutine", "pyteal.compiler.compiler")
+    ctx.analysed(f.fq)
+    rets = [c for c in q.calls_named(f.node, "Return", into_nested=False)]
+    q.need(len(rets) == 2, f"{f.fq}: expected two Return(...) constructions, found {len(rets)}")
+    for c in rets:
+        gs = q.nguards(c)
+        has_ret = ("ast.has_return()", False) in gs
+        if not c.args:
+            ok = has_ret and ("ast.type_of() == TealType.none", True) in gs
+            ctx.check(ok, "R01.10", "compileSubroutine:implicit-return-none", f"Return() without value must be appended exactly when the body has no return and is of type none (guards {gs})", f"{f.module.rel}:{c.lineno}", fact={"guards": gs})
+        else:
+            ok = has_ret and ("ast.type_of() == TealType.none", False) in gs and u(c.args[0]) == "ast"
+            ctx.check(ok, "R01.10", "compileSubroutine:implicit-return-value", f"Return(ast) must wrap the body exactly when it has no return and produces a value (guards {gs})", f"{f.module.rel}:{c.lineno}", fact={"guards": gs})
+    # the Seq keeps the body first, the Return last
+    seqs = [c for c in q.calls_named(f.node, "Seq", into_nested=False)]
+    ctx.check(len(seqs) == 1 and u(seqs[0].args[0]).replace(" ", "") == "[ast,ret_expr]", "R01.10", "compileSubroutine:body-then-return", "the implicit Return must follow the body", f.where, fact={"seq": [u(s) for s in seqs]})
+    # the lowered graph is the (possibly wrapped) ast
+    teals = [c for c in q.calls_named(f.node, "__teal__", into_nested=False) if u(c.func.value) == "ast"]
+    ctx.check(len(teals) == 1 and all(r.lineno < teals[0].lineno for r in rets), "R01.10", "compileSubroutine:lower-after-wrap", "ast.__teal__ must be called after the implicit Return was added", f.where, fact={})
+    t = ctx.model.find_func("TealBlock.isTerminal", "pyteal.ir.tealblock")
+    ops = sorted({n.attr for n in ast.walk(t.node) if isinstance(n, ast.Attribute) and u(n.value) == "Op"})
+    ctx.check(ops == ["err", "retsub", "return_"], "R01.10", "TealBlock.isTerminal:ops", f"terminal ops must be exactly return, retsub, err; found {ops}", t.where, fact={"ops": ops})
+    rl = [r for r in q.returns_of(t.node)]
+    ctx.check(any("len(self.getOutgoing()) == 0" in u(r.value) for r in rl), "R01.10", "TealBlock.isTerminal:no-successor", "a block without successors is terminal", t.where, fact={})
+    ctx.require_min("R01.10", 6)
+
+
+def run(ctx):
     r01_3_wiring(ctx)
     r01_1_operands(ctx)
+    r01_4_flatten(ctx)
+    r01_5_sort(ctx)
+    r01_6_root_rebinding(ctx)
+    r01_7_replace_total(ctx)
+    r01_8_api_ops(ctx)
+    r01_10_routine_epilogue(ctx)
     return (
-        "Def-use edge facts of every control construct's __teal__ compared with a reference lowering; operand order/arity at emission "
-        "sites; pattern rules on NormalizeBlocks/sortBlocks/flattenBlocks/replaceOutgoing. Behaviour over inputs is not decided."
+        "Def-use edge facts of every control construct's __teal__ compared with a reference lowering (R01.3); operand order/arity at "
+        "emission sites and factories (R01.1); finite abstract evaluation of flattenBlocks' branch emission over all successor "
+        "configurations (R01.4); sortBlocks/NormalizeBlocks/replaceOutgoing invariants (R01.5-7); frozen API->op table and operator "
+        "overloads (R01.8); implicit Return and terminator set (R01.10). Behaviour over inputs is not decided."
     )
